@@ -18,6 +18,7 @@ import (
 	"sort"
 	"strings"
 
+	"google.golang.org/protobuf/encoding/protowire"
 	"google.golang.org/protobuf/internal/strs"
 	"google.golang.org/protobuf/proto"
 	"google.golang.org/protobuf/reflect/protodesc"
@@ -930,12 +931,117 @@ func (g *sgen) pinnedFile() *descriptorpb.FileDescriptorProto {
 				}}}},
 			{Name: proto.String("PinV"), Field: []*dpb{mf("w", 1, "PinW")}},
 			{Name: proto.String("PinW"), Field: []*dpb{reqx()}},
+			// every name that protogen reserves or mangles, in one message: the method names of generated
+			// messages (usedNames of newMessage), the Build special case of the opaque API, and a field together
+			// with fields named like its accessors (hasConflictHybrid) and a oneof named like an accessor
+			pinNames(),
 		},
 	}
-	for _, n := range []string{"PinQ", "PinA", "PinB", "PinC", "PinT", "PinV", "PinW"} {
+	for _, n := range []string{"PinQ", "PinA", "PinB", "PinC", "PinT", "PinV", "PinW", "PinNames"} {
 		g.claim(scope, n)
 	}
 	return fd
+}
+
+// customOptions declares three custom options in the file; instantiate() gives them per-instance numbers and
+// sets them on fields and messages of the same file (as unknown fields, the way protoc hands them to a plugin):
+//
+//	extend google.protobuf.FieldOptions   { optional int32  zz_src_opt = N+1 [retention = RETENTION_SOURCE];
+//	                                        optional string zz_run_opt = N+2; }
+//	extend google.protobuf.MessageOptions { optional int32  zz_msg_src_opt = N+3 [retention = RETENTION_SOURCE]; }
+func (g *sgen) customOptions(fd *descriptorpb.FileDescriptorProto) {
+	scope := "." + pkgPlaceholder
+	fd.Dependency = append(fd.Dependency, "google/protobuf/descriptor.proto")
+	src := &descriptorpb.FieldOptions{Retention: descriptorpb.FieldOptions_RETENTION_SOURCE.Enum()}
+	for i, x := range []struct {
+		name, ext string
+		t         descriptorpb.FieldDescriptorProto_Type
+		o         *descriptorpb.FieldOptions
+	}{
+		{"zz_src_opt", ".google.protobuf.FieldOptions", descriptorpb.FieldDescriptorProto_TYPE_INT32, src},
+		{"zz_run_opt", ".google.protobuf.FieldOptions", descriptorpb.FieldDescriptorProto_TYPE_STRING, nil},
+		{"zz_msg_src_opt", ".google.protobuf.MessageOptions", descriptorpb.FieldDescriptorProto_TYPE_INT32, src},
+	} {
+		g.claim(scope, x.name)
+		f := &dpb{Name: proto.String(x.name), Number: proto.Int32(int32(50001 + i)), Label: tOptional(), Type: x.t.Enum(), Extendee: proto.String(x.ext), JsonName: proto.String(strs.JSONCamelCase(x.name))}
+		if x.o != nil {
+			f.Options = proto.Clone(x.o).(*descriptorpb.FieldOptions)
+		}
+		fd.Extension = append(fd.Extension, f)
+	}
+	g.h("custom_options")
+}
+
+// applyCustomOptions renumbers the custom options of customOptions to base+1..3 and sets them on every fourth
+// field (both field options) and every second message (the message option) of the file.
+func applyCustomOptions(fd *descriptorpb.FileDescriptorProto, base int32) {
+	has := false
+	for _, x := range fd.Extension {
+		switch x.GetName() {
+		case "zz_src_opt":
+			x.Number, has = proto.Int32(base+1), true
+		case "zz_run_opt":
+			x.Number = proto.Int32(base + 2)
+		case "zz_msg_src_opt":
+			x.Number = proto.Int32(base + 3)
+		}
+	}
+	if !has {
+		return
+	}
+	k := 0
+	var walk func(md *descriptorpb.DescriptorProto)
+	walk = func(md *descriptorpb.DescriptorProto) {
+		if md.GetOptions().GetMapEntry() {
+			return
+		}
+		k++
+		if k%2 == 0 {
+			if md.Options == nil {
+				md.Options = &descriptorpb.MessageOptions{}
+			}
+			b := protowire.AppendTag(nil, protowire.Number(base+3), protowire.VarintType)
+			md.Options.ProtoReflect().SetUnknown(protowire.AppendVarint(b, uint64(k)))
+		}
+		for i, f := range md.Field {
+			if (i+k)%4 != 0 {
+				continue
+			}
+			if f.Options == nil {
+				f.Options = &descriptorpb.FieldOptions{}
+			}
+			b := protowire.AppendTag(nil, protowire.Number(base+1), protowire.VarintType)
+			b = protowire.AppendVarint(b, uint64(f.GetNumber()))
+			b = protowire.AppendTag(b, protowire.Number(base+2), protowire.BytesType)
+			b = protowire.AppendString(b, "run:"+f.GetName())
+			f.Options.ProtoReflect().SetUnknown(b)
+		}
+		for _, n := range md.NestedType {
+			walk(n)
+		}
+	}
+	for _, md := range fd.MessageType {
+		walk(md)
+	}
+}
+
+func pinNames() *descriptorpb.DescriptorProto {
+	md := &descriptorpb.DescriptorProto{Name: proto.String("PinNames")}
+	names := []string{"reset", "string", "proto_message", "marshal", "unmarshal", "extension_range_array", "extension_map", "descriptor",
+		"build", "x", "get_x", "set_x", "has_x", "clear_x", "which_o", "has_o", "clear_o"}
+	for i, n := range names {
+		t := descriptorpb.FieldDescriptorProto_TYPE_INT32
+		if i%3 == 1 {
+			t = descriptorpb.FieldDescriptorProto_TYPE_STRING
+		}
+		md.Field = append(md.Field, &dpb{Name: proto.String(n), Number: proto.Int32(int32(i + 1)), Label: tOptional(), Type: t.Enum(), JsonName: proto.String(strs.JSONCamelCase(n))})
+	}
+	md.OneofDecl = []*descriptorpb.OneofDescriptorProto{{Name: proto.String("o")}}
+	for i, n := range []string{"oa", "ob"} {
+		md.Field = append(md.Field, &dpb{Name: proto.String(n), Number: proto.Int32(int32(100 + i)), Label: tOptional(), Type: descriptorpb.FieldDescriptorProto_TYPE_BOOL.Enum(),
+			JsonName: proto.String(n), OneofIndex: proto.Int32(0)})
+	}
+	return md
 }
 
 // file generates one file of the package.
@@ -981,6 +1087,9 @@ func (g *sgen) file(syntax, suffix string, nmsgs int, deps []*descriptorpb.FileD
 			fd.Options = &descriptorpb.FileOptions{}
 		}
 		fd.Options.Deprecated = proto.Bool(true)
+	}
+	if syntax == "proto2" {
+		g.customOptions(fd)
 	}
 	usedExt := map[string]map[int32]bool{}
 	// accept() may veto a declaration (steering away from the known-uncompilable classes): roll back and retry
@@ -1102,8 +1211,9 @@ func sortedKeys[V any](m map[string]V) []string {
 }
 
 // instantiate rewrites placeholder package, file names and go_package for one concrete instance.
-func instantiate(fd *descriptorpb.FileDescriptorProto, protoPkg, goImport, goPkg string, rename func(string) string) *descriptorpb.FileDescriptorProto {
+func instantiate(fd *descriptorpb.FileDescriptorProto, protoPkg, goImport, goPkg string, rename func(string) string, optBase int32) *descriptorpb.FileDescriptorProto {
 	out := proto.Clone(fd).(*descriptorpb.FileDescriptorProto)
+	applyCustomOptions(out, optBase)
 	out.Name = proto.String(rename(out.GetName()))
 	for i, d := range out.Dependency {
 		out.Dependency[i] = rename(d)
